@@ -225,6 +225,18 @@ fn container_nontrivial(item: &J) -> bool {
 }
 
 pub fn run_decode(ctx: &mut Ctx, v: &J) {
+    // one item decoded as several types: {multi: [{ty, expect}, ...]}
+    if let Some(multi) = v["multi"].as_array() {
+        for m in multi {
+            let mut one = v.clone();
+            let o = one.as_object_mut().unwrap();
+            o.remove("multi");
+            o.insert("ty".into(), m["ty"].clone());
+            o.insert("expect".into(), m["expect"].clone());
+            run_decode(ctx, &one);
+        }
+        return;
+    }
     let ty = v["ty"].as_str().unwrap_or("");
     let reg = v["reg"].as_str().unwrap_or("");
     let h = hash_of(&json!([v["ty"], v["reg"], v["item"], v["wires"], v["api"]]));
